@@ -274,3 +274,13 @@ Definition run_sorted (rev : bool) (t : ty) (l : list (@val float t)) : list Z :
   (* stable: a later element is placed after the earlier elements it compares equal to *)
   let lt (x y : @val float t) := match cmp x y with Ok Lt => true | _ => false end in
   flat_map (enc t) (fold_left (fun acc x => insert lt x acc) l []).
+
+(* ---- IsNone for Vec<i32> (C15 audit): is_none, not_none, to_opt, as_opt, unwrap, from_opt(to_opt), none().is_none,
+        from_opt(None); a vector is encoded as its length followed by its elements *)
+Definition enc_vec (v : list Z) : list Z := c_nat (length v) ++ cells c_int v.
+Definition enc_ovec (o : option (list Z)) : list Z :=
+  match o with Some v => c_int 1 ++ enc_vec v | None => c_int 0 end.
+Definition run_vecnone (v : list Z) : list Z :=
+  c_bool (vec_is_none v) ++ c_bool (vec_not_none v) ++ enc_ovec (vec_to_opt v) ++ enc_ovec (vec_as_opt v)
+  ++ enc_r enc_vec (vec_unwrap v) ++ enc_vec (vec_from_opt (vec_to_opt v))
+  ++ c_bool (vec_is_none (@vec_none Z)) ++ enc_vec (vec_from_opt (@None (list Z))).
